@@ -293,6 +293,17 @@ def _opt(x):
     return None if x is None else SomeV(x)
 
 
+def _tz(v):
+    """A time in ns as a short Gallina term (T6 k = k*10^6, T3 k = k*10^3; Model.v)."""
+    if v is None:
+        return None
+    if v and v % 1_000_000 == 0:
+        return Raw(f"(T6 {v // 1_000_000})")
+    if v and v % 1000 == 0:
+        return Raw(f"(T3 {v // 1000})")
+    return v
+
+
 def _upds(us):
     return [Ctor("mkUpd", m if m is not None else -1, k, i if isinstance(i, int) else -7) for m, k, i in us]
 
@@ -316,21 +327,25 @@ def _output(o):
     if o[0] == "send":
         return Ctor("OSend", o[1], o[2], o[3], _opt(o[4]), _opt(o[5]), o[6], _upds(o[7]))
     if o[0] == "timer":
-        return Ctor("OTimer", Ctor(["TTick", "TIndirect", "TSusp"][o[1]]), o[2], o[3], o[4])
+        return Ctor("OTimer", Ctor(["TTick", "TIndirect", "TSusp"][o[1]]), o[2], _tz(o[3]), o[4])
     return Ctor("OCancel", o[1])
 
 
 def _state(s):
-    ms = [Ctor("mkMember", m[0], Ctor(["Alive", "Suspect", "Dead"][m[1]]), m[2], _opt(m[3]), m[4]) for m in s["members"]]
+    ms = [Ctor("mkMember", m[0], Ctor(["Alive", "Suspect", "Dead"][m[1]]), m[2], _opt(_tz(m[3])), m[4]) for m in s["members"]]
     return Ctor("mkNode", ms, s["inc"], _upds(s["pend"]), s["order"], s["pidx"], [tuple(x) for x in s["packs"]],
                 s["next_id"], *s["stats"])
+
+
+def _cfg(x):
+    return Ctor("mkCfg", x[0], _tz(x[1]), _tz(x[2]), _tz(x[3]), x[4], x[5])
 
 
 def encode_cluster(c, o):
     nodes = []
     for i in range(c["n"]):
-        cfg = Ctor("mkCfg", *o["cfg"][i])
-        steps = [(now, _input(inp), [_output(x) for x in outs], _state(post)) for now, inp, outs, post in o["steps"][i]]
+        cfg = _cfg(o["cfg"][i])
+        steps = [(_tz(now), _input(inp), [_output(x) for x in outs], _state(post)) for now, inp, outs, post in o["steps"][i]]
         nodes.append((cfg, o["names"][i], o["orders"][i], steps))
     return term(nodes)
 
@@ -440,9 +455,9 @@ def encode_world(c, o):
         # a message still in flight when the run ended arrives after everything that was observed
         delays = [o["glob"]["delay"].get(str(x[8]), end - now + 1) for x in outs if x[0] == "send"]
         dmax = max([dmax] + delays)
-        g = (node, now, _input(inp), delays)
+        g = (node, _tz(now), _input(inp), [_tz(x) for x in delays])
         gs.append(Ctor("CG", g) if c["crash"] else g)
-    cfgs = [Ctor("mkCfg", *x) for x in o["cfg"]]
+    cfgs = [_cfg(x) for x in o["cfg"]]
     return term((cfgs, dmax, c["n"], o["cfg"][0][1], o["orders"], gs))
 
 
@@ -540,8 +555,8 @@ def impl_node(case):
 
 
 def encode_node(c, o):
-    steps = [(now, _input(inp), [_output(x) for x in outs], _state(post)) for now, inp, outs, post in o["steps"]]
-    return term((Ctor("mkCfg", *o["cfg"]), o["names"], o["order"], steps))
+    steps = [(_tz(now), _input(inp), [_output(x) for x in outs], _state(post)) for now, inp, outs, post in o["steps"]]
+    return term((_cfg(o["cfg"]), o["names"], o["order"], steps))
 
 
 def oracle_node(c, o):
